@@ -1,6 +1,6 @@
 (* Proofs about the parser model (Model/Parser.v). *)
 From PG Require Import Lib.Strs Model.AllOf Model.Parser Proofs.AllOf Gen.T_C02.
-From Coq Require Import Lia.
+From Coq Require Import Lia Arith PeanoNat.
 
 (* ------------------------------------------------------------------ the declared semantics is fuel-monotone,
    hence a (partial) function of the document alone *)
@@ -1070,3 +1070,582 @@ Lemma loss_only_by_events : forall md S,
 Proof.
   intros md S HS s Ho Hp n Hn Hnf He. apply Hnf. apply (C02_core md S HS He Ho Hp n Hn).
 Qed.
+
+(* ================================================================== static part: acyclic documents run clean ========
+   A second induction over the fuel, about the tracker only: with a rank witness for acyclicity every named entry
+   finds its name NOT_STARTED/IN_PROGRESS, not on the stack (all stack entries have larger rank) and within the depth
+   limit (potential 4*rank+slack), every early-return branch is dead, enter/exit are balanced, and the fuel
+   max_depth+50 suffices.  Registry facts are taken from [rec_ok] above. *)
+Section Static.
+  Variable md : N.
+  Variable S : spec.
+  Variable rkl : list (str * nat).
+  Notation rk := (rank_of rkl).
+  Hypothesis HS : core_spec S = true.
+  Hypothesis HR : ranked_b rkl S = true.
+  Hypothesis HD : depth_ok rkl S md = true.
+
+  Definition refs_below (nd : node) (b : nat) : Prop :=
+    forall m, In m (refs nd) -> (exists nd', alookup m S = Some nd') /\ (rk m < b)%nat.
+
+  Lemma ranked : forall n nd, alookup n S = Some nd -> refs_below nd (rk n).
+  Proof.
+    intros n nd Hl m Hm. apply alookup_In in Hl. unfold ranked_b in HR. rewrite forallb_forall in HR.
+    specialize (HR _ Hl). simpl in HR. rewrite forallb_forall in HR. specialize (HR _ Hm).
+    apply andb_true_iff in HR. destruct HR as [A B]. split.
+    - destruct (alookup m S); [eexists; reflexivity | discriminate].
+    - apply Nat.ltb_lt in B. exact B.
+  Qed.
+
+  Lemma depth_named : forall n nd, alookup n S = Some nd -> (4 * N.of_nat (rk n) + 4 <= md)%N.
+  Proof.
+    intros n nd Hl. apply alookup_In in Hl. unfold depth_ok in HD. rewrite forallb_forall in HD.
+    specialize (HD _ Hl). simpl in HD. apply N.leb_le in HD. exact HD.
+  Qed.
+
+  Definition TI (s : st) : Prop :=
+    (forall m, state_of s m = Completed -> registered m s = true)
+    /\ (forall m, match state_of s m with PhCycle | PhDepth | PhSelf => False | _ => True end).
+
+  Definition stack_above (s : st) (b : nat) : Prop := forall x, In x (stack s) -> (b <= rk x)%nat.
+
+  Definition pre (s : st) (b : nat) (d : N) : Prop :=
+    events s = [] /\ oof s = false /\ TI s /\ Inv S s /\ stack_above s b /\ (depth s + d <= md)%N.
+
+  Definition post (s s' : st) (b : nat) (self : option str) : Prop :=
+    events s' = [] /\ oof s' = false /\ TI s' /\ Inv S s' /\ stack s' = stack s /\ depth s' = depth s
+    /\ (forall k, registered k s = true -> registered k s' = true)
+    /\ (forall k, registered k s' = true -> registered k s = true \/ (rk k < b)%nat \/ self = Some k).
+
+  Definition slack (name : option str) (nd : node) : N :=
+    match name, nd with
+    | Some _, _ => 4
+    | None, Obj _ _ => 3
+    | None, Arr _ => 2
+    | None, _ => 1
+    end.
+
+  Definition keys_ok (nd : node) : Prop := forall k, In k (prop_keys nd) -> ~ In k (map fst S).
+
+  (* F = fuel available to the callee *)
+  Definition tr_ok (F : N) (rec : option str -> node -> st -> ir * st) : Prop :=
+    forall name nd s b r s', rec name nd s = (r, s') ->
+      (4 * N.of_nat b + slack name nd <= F)%N ->
+      pre s b (4 * N.of_nat b + slack name nd) -> refs_below nd b ->
+      match name with
+      | Some n => alookup n S = Some nd /\ rk n = b /\ registered n s = false /\ ~ In n (stack s)
+      | None => core_anon nd = true /\ keys_ok nd
+      end ->
+      post s s' b name.
+
+  Ltac mkpost := unfold post; repeat (split; [first [assumption | reflexivity | congruence]|]).
+
+  Lemma post_refl : forall s b, pre s b 0 -> post s s b None.
+  Proof. intros s b (A & O & B & C & D & E). mkpost. auto. Qed.
+
+  Lemma pre_weaken : forall s b d d', (d' <= d)%N -> pre s b d -> pre s b d'.
+  Proof. intros s b d d' Hd (A & O & B & C & D & E). unfold pre. repeat (split; [assumption|]). lia. Qed.
+
+  Lemma post_trans : forall s s1 s2 b, post s s1 b None -> post s1 s2 b None -> post s s2 b None.
+  Proof.
+    intros s s1 s2 b (A1 & O1 & B1 & C1 & D1 & E1 & F1 & G1) (A2 & O2 & B2 & C2 & D2 & E2 & F2 & G2). mkpost.
+    try (split; [solve [auto]|]). intros k Hk. destruct (G2 k Hk) as [H|[H|H]]; [|auto|discriminate].
+    destruct (G1 k H) as [H'|[H'|H']]; [auto|auto|discriminate].
+  Qed.
+
+  Lemma post_pre : forall s s' b self d, post s s' b self -> pre s b d -> pre s' b d.
+  Proof.
+    intros s s' b self d (A & O & B & C & D & E & _) (_ & _ & _ & _ & P4 & P5). unfold pre, stack_above in *.
+    rewrite D, E. auto 10.
+  Qed.
+
+  Section WithRec.
+    Variable F : N.
+    Variable rec : option str -> node -> st -> ir * st.
+    Hypothesis Hrec : rec_ok S rec.
+    Hypothesis Hm : mono rec.
+    Hypothesis Htr : tr_ok F rec.
+
+    Lemma resolve_tr : forall m s b r s',
+      resolve_ref S rec m s = (r, s') -> (4 * N.of_nat b <= F)%N ->
+      pre s b (4 * N.of_nat b) -> (exists nd', alookup m S = Some nd') -> (rk m < b)%nat ->
+      post s s' b None.
+    Proof.
+      intros m s b r s' H HF P [nd' Hl] Hlt. unfold resolve_ref in H.
+      destruct P as (A & O & B & C & D & E).
+      destruct (alookup m (parsed s)) as [e|] eqn:El.
+      - pose proof (alookup_In _ _ _ El) as Hin. apply C in Hin. destruct Hin as [(? & _ & _ & (_ & _ & Dm & _) & _) _].
+        rewrite Dm in H. inversion H; subst. apply post_refl. unfold pre. repeat (split; [assumption|]). lia.
+      - rewrite Hl in H.
+        assert (P' : pre s (rk m) (4 * N.of_nat (rk m) + slack (Some m) nd')).
+        { unfold pre. repeat (split; [assumption|]). split.
+          - intros x Hx. specialize (D x Hx). lia.
+          - unfold slack. lia. }
+        assert (Side : alookup m S = Some nd' /\ rk m = rk m /\ registered m s = false /\ ~ In m (stack s)).
+        { repeat split; auto.
+          - unfold registered. rewrite El. reflexivity.
+          - intro Hx. specialize (D m Hx). lia. }
+        assert (HF' : (4 * N.of_nat (rk m) + slack (Some m) nd' <= F)%N) by (unfold slack; lia).
+        pose proof (Htr (Some m) nd' s (rk m) r s' H HF' P' (ranked m nd' Hl) Side) as (A1 & O1 & B1 & C1 & D1 & E1 & F1 & G1).
+        mkpost. try (split; [assumption|]).
+        intros k Hk. destruct (G1 k Hk) as [Hh|[Hh|Hh]]; [auto| right; left; lia |].
+        inversion Hh; subst. right; left; exact Hlt.
+    Qed.
+
+    Lemma items_tr : forall name y s b r s', core_item y = true ->
+      parse_items rec name y s = (r, s') -> (4 * N.of_nat b + 1 <= F)%N ->
+      pre s b (4 * N.of_nat b + 1) -> refs_below y b -> post s s' b None.
+    Proof.
+      intros name y s b r s' Hc H HF P Hr. unfold parse_items in H.
+      assert (N0 : item_name name y s = None) by (unfold item_name; destruct y; try discriminate; reflexivity).
+      rewrite N0 in H. destruct (rec None y s) as [a s1] eqn:E.
+      assert (T : type_object y = false) by (destruct y; try discriminate; reflexivity).
+      rewrite T in H. simpl in H. inversion H; subst.
+      assert (SL : slack None y = 1%N) by (destruct y; try discriminate; reflexivity).
+      apply (Htr None y s b r s' E); rewrite ?SL; auto.
+      split.
+      - unfold core_anon. rewrite Hc, orb_true_r. reflexivity.
+      - destruct y; try discriminate; intros k0 [].
+    Qed.
+
+    Lemma post_same_tracker : forall s s1 b, post s s1 b None -> post s (w_parsed (parsed s1) s1) b None.
+    Proof. intros s s1 b H. exact H. Qed.
+
+    Lemma props_tr : forall ps parent acc s b out s',
+      forallb (fun kv => core_prop (snd kv)) ps = true ->
+      (forall k, In k (map fst ps) -> ~ In k (map fst S)) ->
+      (forall kv, In kv ps -> refs_below (snd kv) b) ->
+      parse_props S rec ps parent acc s = (out, s') -> (4 * N.of_nat b + 2 <= F)%N ->
+      pre s b (4 * N.of_nat b + 2) -> post s s' b None.
+    Proof.
+      induction ps as [|[key pn] ps IH]; intros parent acc s b out s' Hc Hk Hr H HF P.
+      - simpl in H. inversion H; subst. apply post_refl. eapply pre_weaken; [|exact P]. lia.
+      - simpl in Hc. apply andb_true_iff in Hc. destruct Hc as [Hc1 Hc2].
+        assert (Hk2 : forall k, In k (map fst ps) -> ~ In k (map fst S)) by (intros k Hin; apply Hk; right; exact Hin).
+        assert (Hr2 : forall kv, In kv ps -> refs_below (snd kv) b) by (intros kv Hin; apply Hr; right; exact Hin).
+        assert (Hr1 : refs_below pn b) by (apply (Hr (key, pn)); left; reflexivity).
+        simpl in H.
+        destruct (alookup key acc) as [v0|] eqn:Ea; [eapply IH; eauto|].
+        destruct pn; try discriminate.
+        + (* Ref *)
+          destruct (resolve_ref S rec n s) as [v s1] eqn:Er.
+          assert (P0 : pre s b (4 * N.of_nat b)) by (eapply pre_weaken; [|exact P]; lia).
+          destruct (Hr1 n (or_introl eq_refl)) as [Hex Hlt].
+          assert (HF0 : (4 * N.of_nat b <= F)%N) by lia.
+          pose proof (resolve_tr _ _ _ _ _ Er HF0 P0 Hex Hlt) as Q1.
+          eapply post_trans; [exact Q1|]. eapply IH; eauto. eapply post_pre; eauto.
+        + (* Arr *)
+          simpl in Hc1.
+          assert (SA : is_simple_array (Arr pn) = true) by (simpl; destruct pn; try discriminate; reflexivity).
+          change (is_simple_primitive (Arr pn)) with false in H. rewrite SA in H. simpl orb in H. cbv iota in H.
+          destruct (rec None (Arr pn) s) as [pr s1] eqn:Er. cbn [negb andb] in H.
+          assert (CA : core_anon (Arr pn) = true) by (unfold core_anon; simpl; rewrite Hc1; reflexivity).
+          assert (NK : keys_ok (Arr pn)) by (intros k0 []).
+          assert (HF1 : (4 * N.of_nat b + slack None (Arr pn) <= F)%N) by (unfold slack; lia).
+          pose proof (Htr None (Arr pn) s b pr s1 Er HF1 P Hr1 (conj CA NK)) as Q1.
+          destruct Q1 as (A1 & O1 & Q1').
+          destruct P as (A & O & B & C & D & E).
+          pose proof (Hrec None (Arr pn) s pr s1 Er A1 O1 C CA NK) as (I1 & (id & it & -> & Hit & Hold)).
+          simpl i_id in H. rewrite (update_id_older _ _ _ Hold) in H.
+          assert (Q1 : post s (w_parsed (parsed s1) s1) b None) by (apply post_same_tracker; unfold post; auto).
+          eapply post_trans; [exact Q1|]. eapply IH; eauto. eapply post_pre; [exact Q1|].
+          unfold pre. auto 10.
+        + (* Prim *)
+          change (is_simple_primitive (Prim k)) with true in H. simpl orb in H. cbv iota in H.
+          destruct (rec None (Prim k) s) as [pr s1] eqn:Er. cbn [negb andb] in H.
+          assert (CA : core_anon (Prim k) = true) by reflexivity.
+          assert (NK : keys_ok (Prim k)) by (intros k0 []).
+          assert (HF1 : (4 * N.of_nat b + slack None (Prim k) <= F)%N) by (unfold slack; lia).
+          assert (P1 : pre s b (4 * N.of_nat b + slack None (Prim k))) by (eapply pre_weaken; [|exact P]; unfold slack; lia).
+          pose proof (Htr None (Prim k) s b pr s1 Er HF1 P1 Hr1 (conj CA NK)) as Q1.
+          destruct Q1 as (A1 & O1 & Q1').
+          destruct P as (A & O & B & C & D & E).
+          pose proof (Hrec None (Prim k) s pr s1 Er A1 O1 C CA NK) as (I1 & (id & -> & Hold & _)).
+          simpl i_id in H. rewrite (update_id_older _ _ _ Hold) in H.
+          assert (Q1 : post s (w_parsed (parsed s1) s1) b None) by (apply post_same_tracker; unfold post; auto).
+          eapply post_trans; [exact Q1|]. eapply IH; eauto. eapply post_pre; [exact Q1|].
+          unfold pre. auto 10.
+    Qed.
+
+    Lemma list_tr : forall l s b ms s',
+      forallb core_member l = true ->
+      (forall x, In x l -> keys_ok x) -> (forall x, In x l -> refs_below x b) ->
+      parse_list rec l s = (ms, s') -> (4 * N.of_nat b + 3 <= F)%N ->
+      pre s b (4 * N.of_nat b + 3) -> post s s' b None.
+    Proof.
+      induction l as [|x l IH]; intros s b ms s' Hc Hk Hr H HF P; simpl in H.
+      - inversion H; subst. apply post_refl. eapply pre_weaken; [|exact P]. lia.
+      - simpl in Hc. apply andb_true_iff in Hc. destruct Hc as [Hc1 Hc2].
+        destruct (rec None x s) as [i s1] eqn:E1. destruct (parse_list rec l s1) as [is_ s2] eqn:E2.
+        inversion H; subst.
+        assert (CA : core_anon x = true).
+        { unfold core_anon, core_member in *. destruct x; try discriminate; simpl in *; try reflexivity. exact Hc1. }
+        assert (SL : (slack None x <= 3)%N) by (destruct x; unfold slack; lia).
+        assert (HF1 : (4 * N.of_nat b + slack None x <= F)%N) by lia.
+        assert (P1 : pre s b (4 * N.of_nat b + slack None x)) by (eapply pre_weaken; [|exact P]; lia).
+        pose proof (Htr None x s b i s1 E1 HF1 P1 (Hr x (or_introl eq_refl)) (conj CA (Hk x (or_introl eq_refl)))) as Q1.
+        eapply post_trans; [exact Q1|].
+        eapply IH; eauto.
+        + intros y Hy. apply Hk. right. exact Hy.
+        + intros y Hy. apply Hr. right. exact Hy.
+        + eapply post_pre; eauto.
+    Qed.
+
+    Lemma registered_reg : forall k n x t,
+      registered k (reg n x t) = true <-> (k = n \/ registered k t = true).
+    Proof.
+      intros k n x t. unfold registered, reg. simpl.
+      destruct (str_eqb k n) eqn:E.
+      - apply str_eqb_eq in E. subst. rewrite alookup_aset_same. split; auto.
+      - apply str_eqb_neq in E. rewrite (alookup_aset_other _ _ _ _ E). split; [auto|]. intros [H|H]; [contradiction|exact H].
+    Qed.
+
+    Lemma finish_eval : forall n nd x t,
+      alookup n S = Some nd -> registered n t = false -> cycles t = [] ->
+      finish S (Some n) x t = (x, reg n x t).
+    Proof.
+      intros n nd x t Hl Hr Hc. destruct (spec_facts S HS _ _ Hl) as (_ & Hcls & Hne & _).
+      unfold finish. rewrite Hne. simpl negb. cbv iota.
+      unfold registered in Hr. destruct (alookup n (parsed t)) eqn:E; [discriminate|].
+      unfold registered. rewrite Hcls, E, Hl. rewrite andb_false_r.
+      assert (C : cycles (reg n x t) = []) by exact Hc. rewrite C. reflexivity.
+    Qed.
+
+    Lemma TI_reg : forall n x t, TI t -> TI (reg n x t).
+    Proof.
+      intros n x t [T1 T2]. split; [|exact T2]. intros m Hcm. apply registered_reg. right. apply T1. exact Hcm.
+    Qed.
+
+    Lemma TI_bump : forall t, TI t -> TI (bump t).
+    Proof. intros t H. exact H. Qed.
+
+    Lemma post_bump : forall s t b, post s t b None -> post s (bump t) b None.
+    Proof.
+      intros s t b (A & O & B & C & D & E & G & H). mkpost. split; [apply Inv_bump; exact C|]. mkpost. auto.
+    Qed.
+
+    Lemma pre_bump : forall t b d, pre t b d -> pre (bump t) b d.
+    Proof. intros t b d (A & O & B & C & D & E). unfold pre. repeat (split; [first [assumption | apply Inv_bump; assumption]|]). exact E. Qed.
+
+    (* the body of _parse_schema between enter and exit, one frame deeper *)
+    Lemma body_tr : forall name nd s b r s',
+      parse_body S rec name nd s = (r, s') ->
+      (4 * N.of_nat b + slack name nd <= F + 1)%N ->
+      pre s b (4 * N.of_nat b + slack name nd - 1) -> refs_below nd b ->
+      match name with
+      | Some n => alookup n S = Some nd /\ rk n = b /\ registered n s = false
+      | None => core_anon nd = true /\ keys_ok nd
+      end ->
+      post s s' b name /\ match name with Some n => registered n s' = true | None => True end.
+    Proof.
+      intros name nd s b r s' H HF P Hr Side.
+      assert (Core : events s' = [] /\ oof s' = false /\ TI s' /\ stack s' = stack s /\ depth s' = depth s
+                     /\ (forall k, registered k s = true -> registered k s' = true)
+                     /\ (forall k, registered k s' = true -> registered k s = true \/ (rk k < b)%nat \/ name = Some k)
+                     /\ match name with Some n => registered n s' = true | None => True end).
+      { destruct name as [n|].
+        - destruct Side as (Hl & Hrk & Hnr).
+          destruct (spec_facts S HS _ _ Hl) as (Hc & Hcls & Hne & Hk).
+          assert (Fin : forall x t, post s t b None -> finish S (Some n) x t = (r, s') ->
+                    events s' = [] /\ oof s' = false /\ TI s' /\ stack s' = stack s /\ depth s' = depth s
+                    /\ (forall k, registered k s = true -> registered k s' = true)
+                    /\ (forall k, registered k s' = true -> registered k s = true \/ (rk k < b)%nat \/ Some n = Some k)
+                    /\ registered n s' = true).
+          { intros x t (A & O & B & C & D & E & G & K) Hf.
+            assert (Hnt : registered n t = false).
+            { destruct (registered n t) eqn:Ert; [|reflexivity]. destruct (K n Ert) as [X|[X|X]]; [congruence|lia|discriminate]. }
+            rewrite (finish_eval n nd x t Hl Hnt (proj2 C)) in Hf. inversion Hf; subst.
+            repeat (split; [first [assumption | apply TI_reg; assumption]|]).
+            split; [intros k Hk0; apply registered_reg; right; auto|].
+            split; [|apply registered_reg; left; reflexivity].
+            intros k Hk0. apply registered_reg in Hk0. destruct Hk0 as [->|Hk0]; [right; right; reflexivity|].
+            destruct (K k Hk0) as [X|[X|X]]; [auto|auto|discriminate]. }
+          destruct nd; try discriminate; cbn -[finish parse_props parse_items parse_list] in H; rewrite Hne, Hcls in H.
+          + (* Obj *)
+            destruct (parse_props S rec ps (Some n) [] s) as [props s1] eqn:E.
+            unfold slack in HF, P.
+            assert (Q : post s s1 b None).
+            { eapply props_tr; [exact Hc | exact Hk | | exact E | lia | eapply pre_weaken; [|exact P]; lia].
+              intros kv Hin m Hmm. apply Hr. simpl. clear - Hin Hmm.
+              induction ps as [|[k0 x0] ps IH]; [contradiction|]. apply in_or_app.
+              destruct Hin as [<-|Hin]; [left; exact Hmm | right; apply IH, Hin]. }
+            eapply Fin; [apply post_bump; exact Q | exact H].
+          + (* Arr *)
+            simpl in Hc.
+            destruct (parse_items rec (Some n) nd s) as [it s1] eqn:E1.
+            destruct (parse_items rec (Some n) nd (bump s1)) as [it2 s2] eqn:E2.
+            unfold slack in HF, P.
+            assert (Q1 : post s s1 b None).
+            { eapply items_tr; [exact Hc | exact E1 | lia | eapply pre_weaken; [|exact P]; lia | exact Hr]. }
+            assert (Q2 : post (bump s1) s2 b None).
+            { eapply items_tr; [exact Hc | exact E2 | lia | | exact Hr].
+              apply pre_bump. eapply post_pre; [exact Q1|]. eapply pre_weaken; [|exact P]. lia. }
+            eapply Fin; [|exact H]. eapply post_trans; [apply post_bump; exact Q1 | exact Q2].
+          + (* AllOf *)
+            simpl in Hc.
+            destruct (parse_list rec l s) as [ms s1] eqn:E.
+            unfold slack in HF, P.
+            assert (Q : post s s1 b None).
+            { eapply list_tr; [exact Hc | | | exact E | lia | eapply pre_weaken; [|exact P]; lia].
+              - intros x Hx k Hkx. apply Hk. clear - Hx Hkx. simpl.
+                induction l as [|y l IH]; [contradiction|]. apply in_or_app.
+                destruct Hx as [->|Hx]; [left; exact Hkx | right; apply IH, Hx].
+              - intros x Hx m Hmm. apply Hr. clear - Hx Hmm. simpl.
+                induction l as [|y l IH]; [contradiction|]. apply in_or_app.
+                destruct Hx as [->|Hx]; [left; exact Hmm | right; apply IH, Hx]. }
+            eapply Fin; [apply post_bump; exact Q | exact H].
+          + (* Prim *)
+            eapply Fin; [|exact H]. apply post_bump, post_refl. eapply pre_weaken; [|exact P]. lia.
+          + (* EnumN *)
+            eapply Fin; [|exact H]. apply post_bump, post_refl. eapply pre_weaken; [|exact P]. lia.
+        - destruct Side as (Hc & Hk).
+          assert (Out : forall t, post s t b None -> s' = t ->
+                    events s' = [] /\ oof s' = false /\ TI s' /\ stack s' = stack s /\ depth s' = depth s
+                    /\ (forall k, registered k s = true -> registered k s' = true)
+                    /\ (forall k, registered k s' = true -> registered k s = true \/ (rk k < b)%nat \/ None = Some k)
+                    /\ True).
+          { intros t (A & O & B & C & D & E & G & K) ->. auto 10. }
+          destruct nd; try discriminate; cbn -[finish parse_props parse_items parse_list] in H; unfold slack in HF, P.
+          + (* Ref *)
+            destruct (resolve_ref S rec n s) as [r0 s1] eqn:E. inversion H; subst.
+            destruct (Hr n (or_introl eq_refl)) as [Hex Hlt].
+            eapply Out; [|reflexivity]. eapply resolve_tr; [exact E | lia | eapply pre_weaken; [|exact P]; lia | exact Hex | exact Hlt].
+          + (* Obj *)
+            destruct (parse_props S rec ps None [] s) as [props s1] eqn:E. simpl in H. inversion H; subst.
+            unfold core_anon in Hc. simpl in Hc.
+            eapply Out; [|reflexivity]. apply post_bump.
+            eapply props_tr; [exact Hc | exact Hk | | exact E | lia | eapply pre_weaken; [|exact P]; lia].
+            intros kv Hin m Hmm. apply Hr. simpl. clear - Hin Hmm.
+            induction ps as [|[k0 x0] ps IH]; [contradiction|]. apply in_or_app.
+            destruct Hin as [<-|Hin]; [left; exact Hmm | right; apply IH, Hin].
+          + (* Arr *)
+            unfold core_anon in Hc. simpl in Hc. rewrite !orb_false_r in Hc.
+            destruct (parse_items rec None nd s) as [it s1] eqn:E1.
+            destruct (parse_items rec None nd (bump s1)) as [it2 s2] eqn:E2.
+            simpl in H. inversion H; subst.
+            assert (Q1 : post s s1 b None).
+            { eapply items_tr; [exact Hc | exact E1 | lia | eapply pre_weaken; [|exact P]; lia | exact Hr]. }
+            eapply Out; [|reflexivity]. eapply post_trans; [apply post_bump; exact Q1|].
+            eapply items_tr; [exact Hc | exact E2 | lia | | exact Hr].
+            apply pre_bump. eapply post_pre; [exact Q1|]. eapply pre_weaken; [|exact P]. lia.
+          + (* Prim *)
+            simpl in H. inversion H; subst. eapply Out; [|reflexivity].
+            apply post_bump, post_refl. eapply pre_weaken; [|exact P]. lia.
+          + (* EnumN *)
+            simpl in H. inversion H; subst. eapply Out; [|reflexivity].
+            apply post_bump, post_refl. eapply pre_weaken; [|exact P]. lia. }
+      destruct Core as (A & O & B & D & E & G & K & R).
+      destruct P as (A0 & O0 & B0 & C0 & D0 & E0).
+      assert (I' : Inv S s').
+      { destruct name as [n|].
+        - destruct Side as (Hl & _). eapply (body_named S HS rec Hrec Hm); eauto.
+        - destruct Side as (Hc & Hk). eapply (body_anon S rec Hrec Hm); eauto. }
+      split; [|exact R]. unfold post. auto 10.
+    Qed.
+
+    Lemma state_of_set_same : forall t n x, state_of (set_state n x t) n = x.
+    Proof. intros. unfold state_of, set_state. simpl. rewrite alookup_aset_same. reflexivity. Qed.
+    Lemma state_of_set_other : forall t n x m, m <> n -> state_of (set_state n x t) m = state_of t m.
+    Proof. intros. unfold state_of, set_state. simpl. rewrite alookup_aset_other; auto. Qed.
+
+    Lemma remove_first_app : forall n l, ~ In n l -> remove_first n (l ++ [n]) = l.
+    Proof.
+      induction l as [|x l IH]; intros Hn; simpl.
+      - rewrite str_eqb_refl. reflexivity.
+      - destruct (str_eqb x n) eqn:E.
+        + apply str_eqb_eq in E. subst. exfalso. apply Hn. left. reflexivity.
+        + f_equal. apply IH. intro Hin. apply Hn. right. exact Hin.
+    Qed.
+    Lemma mem_str_last : forall n l, mem_str n (l ++ [n]) = true.
+    Proof. intros. apply mem_str_In. apply in_or_app. right. left. reflexivity. Qed.
+
+    Lemma exit_state : forall name t m,
+      state_of (exit_schema name t) m = state_of t m
+      \/ (name = Some m /\ state_of t m = InProgress /\ state_of (exit_schema name t) m = Completed).
+    Proof.
+      intros name t m. unfold exit_schema.
+      set (t1 := if (0 <? depth t)%N then w_depth (depth t - 1) t else t).
+      assert (S1 : forall x, state_of t1 x = state_of t x) by (intros x; unfold t1; destruct (0 <? depth t)%N; reflexivity).
+      destruct name as [n|]; [|left; apply S1]. destruct (nonempty n); [|left; apply S1].
+      set (t2 := if mem_str n (stack t1) then w_stack (remove_first n (stack t1)) t1 else t1).
+      assert (S2 : forall x, state_of t2 x = state_of t x) by (intros x; unfold t2; destruct (mem_str n (stack t1)); apply S1).
+      destruct (state_of t2 n) eqn:Es; try (left; apply S2).
+      destruct (str_eq_dec m n) as [->|Hmn].
+      - right. rewrite state_of_set_same. rewrite <- S2. auto.
+      - left. rewrite state_of_set_other by exact Hmn. apply S2.
+    Qed.
+
+    Lemma step_tr : tr_ok (F + 1) (step md S rec).
+    Proof.
+      intros name nd s b r s' H HF P Hr Side. unfold step in H.
+      destruct P as (A & O & B & C & D & E).
+      assert (SL : (1 <= slack name nd)%N) by (unfold slack; destruct name; [lia | destruct nd; lia]).
+      destruct name as [n|].
+      - destruct Side as (Hl & Hrk & Hnr & Hns).
+        destruct (spec_facts S HS _ _ Hl) as (_ & _ & Hne & _).
+        set (s1 := w_stack (stack s ++ [n]) (set_state n InProgress (w_depth (depth s + 1) s))).
+        assert (En : enter md (Some n) s = (AContinue, None, s1)).
+        { unfold enter, cycle_check.
+          assert (St : state_of (w_depth (depth s + 1) s) n = state_of s n) by reflexivity. rewrite St.
+          destruct B as [T1 T2]. specialize (T1 n). specialize (T2 n).
+          assert (Dp : (md <? depth (w_depth (depth s + 1) s))%N = false).
+          { apply N.ltb_ge. simpl. unfold slack in E. lia. }
+          assert (Ms : mem_str n (stack (w_depth (depth s + 1) s)) = false).
+          { simpl. destruct (mem_str n (stack s)) eqn:M; [|reflexivity]. apply mem_str_In in M. contradiction. }
+          destruct (state_of s n); try contradiction; try (rewrite T1 in Hnr; [discriminate | reflexivity]);
+            rewrite Dp, Ms; simpl; rewrite Hne; reflexivity. }
+        rewrite En in H.
+        destruct (parse_body S rec (Some n) nd s1) as [r0 s2] eqn:Eb.
+        assert (Hs' : s' = exit_schema (Some n) s2) by (pose proof (f_equal snd H) as X; cbn [snd] in X; symmetry; exact X).
+        subst s'. clear H.
+        assert (P1 : pre s1 b (4 * N.of_nat b + slack (Some n) nd - 1)).
+        { unfold pre. split; [exact A|]. split; [exact O|]. split.
+          { destruct B as [T1 T2]. split.
+            - intros m Hcm. destruct (str_eq_dec m n) as [->|Hne'].
+              + unfold s1 in Hcm. change (state_of (set_state n InProgress (w_depth (depth s + 1) s)) n = Completed) in Hcm.
+                rewrite state_of_set_same in Hcm. discriminate.
+              + change (state_of (set_state n InProgress (w_depth (depth s + 1) s)) m = Completed) in Hcm.
+                rewrite state_of_set_other in Hcm by exact Hne'. apply (T1 m Hcm).
+            - intros m. destruct (str_eq_dec m n) as [->|Hne'].
+              + change (match state_of (set_state n InProgress (w_depth (depth s + 1) s)) n with
+                        | PhCycle | PhDepth | PhSelf => False | _ => True end).
+                rewrite state_of_set_same. exact I.
+              + change (match state_of (set_state n InProgress (w_depth (depth s + 1) s)) m with
+                        | PhCycle | PhDepth | PhSelf => False | _ => True end).
+                rewrite state_of_set_other by exact Hne'. apply T2. }
+          split; [apply (Inv_tracker S s); auto|]. split.
+          - intros x Hx. simpl in Hx. apply in_app_or in Hx. destruct Hx as [Hx|[<-|[]]]; [apply D, Hx | lia].
+          - change (depth s1) with (depth s + 1)%N. unfold slack in *. lia. }
+        destruct (body_tr (Some n) nd s1 b r0 s2 Eb HF P1 Hr (conj Hl (conj Hrk Hnr))) as (Q & Rn).
+        destruct Q as (A2 & O2 & B2 & C2 & D2 & E2 & G2 & K2).
+        destruct (exit_shape (Some n) s2) as (Pp & Np & Cp & Ep & Op).
+        assert (Dx : depth (exit_schema (Some n) s2) = depth s).
+        { unfold exit_schema. rewrite E2. simpl depth.
+          assert ((0 <? depth s + 1)%N = true) by (apply N.ltb_lt; lia). rewrite H.
+          rewrite Hne. simpl. destruct (mem_str n _); [|]; simpl;
+            match goal with |- context [state_of ?t n] => destruct (state_of t n) end; simpl; lia. }
+        assert (Sx : stack (exit_schema (Some n) s2) = stack s).
+        { unfold exit_schema. destruct (0 <? depth s2)%N; rewrite Hne; simpl; rewrite D2; simpl;
+            rewrite mem_str_last; simpl;
+            match goal with |- context [state_of ?t n] => destruct (state_of t n) end; simpl;
+            apply remove_first_app; exact Hns. }
+        assert (Tx : TI (exit_schema (Some n) s2)).
+        { destruct B2 as [T1 T2].
+          assert (Reg : forall m, registered m (exit_schema (Some n) s2) = registered m s2).
+          { intros m. unfold registered. rewrite Pp. reflexivity. }
+          split.
+          - intros m Hcm. rewrite Reg.
+            destruct (exit_state (Some n) s2 m) as [Hs|(Hn' & _)]; [rewrite Hs in Hcm; apply T1, Hcm|].
+            inversion Hn'; subst. exact Rn.
+          - intros m. destruct (exit_state (Some n) s2 m) as [Hs|(_ & _ & Hs)]; rewrite Hs; [apply T2 | exact I]. }
+        unfold post. rewrite Ep, Op. split; [exact A2|]. split; [exact O2|]. split; [exact Tx|].
+        split; [apply (Inv_tracker S s2); auto|]. split; [exact Sx|]. split; [exact Dx|].
+        assert (Reg : forall m, registered m (exit_schema (Some n) s2) = registered m s2) by (intros m; unfold registered; rewrite Pp; reflexivity).
+        split; [intros k Hk0; rewrite Reg; apply G2; exact Hk0|].
+        intros k Hk0. rewrite Reg in Hk0. apply K2 in Hk0. exact Hk0.
+      - destruct Side as (Hc & Hk).
+        set (s1 := w_depth (depth s + 1) s).
+        change (enter md None s) with (AContinue, @None ir, s1) in H. cbv iota beta in H.
+        destruct (parse_body S rec None nd s1) as [r0 s2] eqn:Eb.
+        assert (Hs' : s' = exit_schema None s2) by (pose proof (f_equal snd H) as X; cbn [snd] in X; symmetry; exact X).
+        subst s'. clear H.
+        assert (P1 : pre s1 b (4 * N.of_nat b + slack None nd - 1)).
+        { unfold pre. split; [exact A|]. split; [exact O|]. split; [exact B|].
+          split; [apply (Inv_tracker S s); auto|]. split; [exact D|].
+          change (depth s1) with (depth s + 1)%N. lia. }
+        destruct (body_tr None nd s1 b r0 s2 Eb HF P1 Hr (conj Hc Hk)) as (Q & _).
+        destruct Q as (A2 & O2 & B2 & C2 & D2 & E2 & G2 & K2).
+        destruct (exit_shape None s2) as (Pp & Np & Cp & Ep & Op).
+        assert (Reg : forall m, registered m (exit_schema None s2) = registered m s2) by (intros m; unfold registered; rewrite Pp; reflexivity).
+        unfold post. rewrite Ep, Op. split; [exact A2|]. split; [exact O2|]. split.
+        { destruct B2 as [T1 T2]. split.
+          - intros m Hcm. rewrite Reg. destruct (exit_state None s2 m) as [Hs|(Hn' & _)]; [|discriminate].
+            rewrite Hs in Hcm. apply T1, Hcm.
+          - intros m. destruct (exit_state None s2 m) as [Hs|(Hn' & _)]; [|discriminate]. rewrite Hs. apply T2. }
+        split; [apply (Inv_tracker S s2); auto|].
+        split; [unfold exit_schema; destruct (0 <? depth s2)%N; exact D2|].
+        split.
+        { unfold exit_schema. rewrite E2. change (depth s1) with (depth s + 1)%N.
+          assert (X : (0 <? depth s + 1)%N = true) by (apply N.ltb_lt; lia). rewrite X. simpl. lia. }
+        split; [intros k Hk0; rewrite Reg; apply G2; exact Hk0|].
+        intros k Hk0. rewrite Reg in Hk0. apply K2 in Hk0. exact Hk0.
+    Qed.
+  End WithRec.
+
+  Lemma parse_schema_tr : forall f, tr_ok (N.of_nat f) (parse_schema md S f).
+  Proof.
+    induction f as [|f IH].
+    - intros name nd s b r s' _ HF. exfalso. unfold slack in HF. destruct name; [lia | destruct nd; lia].
+    - rewrite Nat2N.inj_succ, <- N.add_1_r. simpl parse_schema.
+      apply step_tr; [apply parse_schema_ok; exact HS | apply mono_parse_schema | exact IH].
+  Qed.
+
+  Definition rest (s : st) : Prop :=
+    events s = [] /\ oof s = false /\ TI s /\ Inv S s /\ stack s = [] /\ depth s = 0%N.
+
+  Lemma build_tr : forall l s,
+    (forall n nd, In (n, nd) l -> alookup n S = Some nd) ->
+    rest s ->
+    rest (build md S (fuel_for md) l s)
+    /\ (forall k, registered k s = true -> registered k (build md S (fuel_for md) l s) = true)
+    /\ (forall n nd, In (n, nd) l -> registered n (build md S (fuel_for md) l s) = true).
+  Proof.
+    induction l as [|[n nd] l IH]; intros s Hl R; simpl.
+    - split; [exact R|]. split; [auto|]. intros n nd [].
+    - assert (Hl' : forall n0 nd0, In (n0, nd0) l -> alookup n0 S = Some nd0) by (intros; apply Hl; right; assumption).
+      pose proof (Hl n nd (or_introl eq_refl)) as Hn.
+      destruct (spec_facts S HS _ _ Hn) as (_ & Hcls & _).
+      rewrite Hcls, orb_diag.
+      destruct (registered n s) eqn:Ern.
+      + destruct (IH s Hl' R) as (R' & M & Al). split; [exact R'|]. split; [exact M|].
+        intros n0 nd0 [Heq|Hin]; [inversion Heq; subst; apply M; exact Ern | eapply Al; exact Hin].
+      + destruct (parse_schema md S (fuel_for md) (Some n) nd s) as [r s1] eqn:E. simpl.
+        destruct R as (A & O & B & C & D & E0).
+        pose proof (depth_named n nd Hn) as Hd.
+        assert (HF : (4 * N.of_nat (rk n) + slack (Some n) nd <= N.of_nat (fuel_for md))%N).
+        { unfold slack, fuel_for. lia. }
+        assert (P : pre s (rk n) (4 * N.of_nat (rk n) + slack (Some n) nd)).
+        { unfold pre. repeat (split; [assumption|]). split.
+          - intros x Hx. rewrite D in Hx. destruct Hx.
+          - rewrite E0. unfold slack. lia. }
+        assert (Side : alookup n S = Some nd /\ rk n = rk n /\ registered n s = false /\ ~ In n (stack s)).
+        { repeat split; auto. rewrite D. intros []. }
+        pose proof (parse_schema_tr (fuel_for md) (Some n) nd s (rk n) r s1 E HF P (ranked n nd Hn) Side)
+          as (A1 & O1 & B1 & C1 & D1 & E1 & G1 & K1).
+        pose proof (parse_schema_ok md S HS (fuel_for md) (Some n) nd s r s1 E A1 O1 C Hn) as (_ & _ & Hreg).
+        assert (R1 : rest s1) by (unfold rest; repeat (split; [first [assumption | congruence]|]); congruence).
+        destruct (IH s1 Hl' R1) as (R' & M & Al). split; [exact R'|]. split; [intros k Hk0; apply M, G1, Hk0|].
+        intros n0 nd0 [Heq|Hin]; [|eapply Al; exact Hin]. inversion Heq; subst.
+        apply M. unfold registered. rewrite Hreg. reflexivity.
+  Qed.
+
+  Lemma rest_st0 : rest st0.
+  Proof.
+    unfold rest. split; [reflexivity|]. split; [reflexivity|]. split.
+    - split; intros m; [intro H; discriminate H | exact I].
+    - split; [apply Inv_st0|]. split; reflexivity.
+  Qed.
+
+  (* static: on acyclic core documents within the depth limit the run fires no loss-relevant branch at all *)
+  Theorem acyclic_clean :
+    let s := parse_doc md S in
+    events s = [] /\ oof s = false /\ all_present S s = true.
+  Proof.
+    assert (ND : nodup_strs (map fst S) = true) by (unfold core_spec in HS; apply andb_true_iff in HS; apply HS).
+    destruct (build_tr S st0 (fun n nd Hin => nodup_alookup S n nd ND Hin) rest_st0) as ((A & O & _) & _ & Al).
+    simpl. split; [exact A|]. split; [exact O|].
+    unfold all_present. apply forallb_forall. intros [n nd] Hin. simpl.
+    unfold parse_doc. rewrite (Al n nd Hin). reflexivity.
+  Qed.
+
+  Theorem C02_acyclic : forall n, In n (map fst S) -> faithful S (parse_doc md S) n.
+  Proof.
+    destruct acyclic_clean as (A & O & P). intros n Hn. apply (C02_core md S HS A O P n Hn).
+  Qed.
+End Static.
+
+
+Definition rk_ok : list (str * nat) := [(sPet, 2%nat); (sAnimal, 1%nat); (sKind, O); (sTag, O)].
+Example static_guard_nonvacuous :
+  core_spec spec_ok = true /\ ranked_b rk_ok spec_ok = true /\ depth_ok rk_ok spec_ok default_max_depth = true.
+Proof. vm_compute. repeat split. Qed.
